@@ -1,9 +1,12 @@
-(* Correspondence for C20: one case = one field packed and unpacked by the library.
+(* Correspondence for C20.
+   Case (FieldC ..)  : one field packed and unpacked by the library (pack2d / unpack).
+   RCase (FileC ..)  : one ARL file written by the Python reference encoder, read by arlpackedbit.
+   WCase (WriteC ..) : one in-memory file written by writearlpackedbit, decoded by the reference decoder.
    Values are integers in unit 2^ue chosen by the harness so that binary32 is exact. *)
-From PNC Require Import Base.Util Model.Arl.
+From PNC Require Export Base.Util Model.Arl Model.ArlFile.
 Local Open Scope Z_scope.
 
-Record case_t := Case {
+Record field_case := FieldC {
   c_h : Z;                       (* half quantum from the library's NEXP, in the unit *)
   c_rows : list (list Z);        (* input field *)
   c_nexp_rel : Z;                (* library NEXP - ue  (exponent relative to the unit) *)
@@ -14,27 +17,206 @@ Record case_t := Case {
 
 Definition is_pow2 (r : Z) : bool := (0 <? r) && (2 ^ Z.log2 r =? r).
 
-Definition nexp_ok (c : case_t) : bool :=
-  let r := rmax (c_rows c) in
-  if r =? 0 then c_nexp_rel c - 1 + 0 =? c_nexp_rel c - 1 (* RMAX = 0: SEXP = 0, checked by harness *)
-  else (c_nexp_rel c =? Z.log2 r + 1)
-       || (is_pow2 r && (c_nexp_rel c =? Z.log2 r))   (* logf band at exact powers of two *).
+Definition nexp_rule (r nexp_rel : Z) : bool :=
+  if r =? 0 then true (* RMAX = 0: SEXP = 0, NEXP = 1, checked by the harness *)
+  else (nexp_rel =? Z.log2 r + 1)
+       || (is_pow2 r && (nexp_rel =? Z.log2 r))   (* logf band at exact powers of two *).
+Definition nexp_ok (c : field_case) : bool := nexp_rule (rmax (c_rows c)) (c_nexp_rel c).
 
-Definition checkF (c : case_t) : bool :=
+Definition checkF_field (c : field_case) : bool :=
   zll_eqb (pack_bytes (c_h c) (c_rows c)) (c_bytes c)
   && zll_eqb (roundtrip (c_h c) (c_rows c)) (c_unp c)
   && (ksum (pack_bytes (c_h c) (c_rows c)) =? c_ksum c)
   && nexp_ok c.
 
-Definition checkS (c : case_t) : bool :=
+Definition checkS_field (c : field_case) : bool :=
   within (2 * c_h c) (c_rows c) (c_unp c)
   && (hdZ (first_row (c_unp c)) =? hdZ (first_row (c_rows c)))
   && (c_ksum c =? sumZ (map sumZ (c_bytes c)) mod 255)
   && forallb (forallb (fun b => (0 <=? b) && (b <=? 255))) (c_bytes c).
 
-Definition region (c : case_t) : nat :=
+Definition region_field (c : field_case) : nat :=
   let r := rmax (c_rows c) in
   if r <=? 254 * c_h c then 0%nat
   else if r <=? 256 * c_h c then 1%nat else 2%nat.
+
+(* ---- file layer ---------------------------------------------------------------------- *)
+(* a variable as observed through the library interface / as evaluated from the model:
+   key, is-surface (3-D), per time per level the unpacked rows (None = not evaluable) *)
+Definition evar := (list Z * bool * list (list (option (list (list Z)))))%type.
+Record eview := EView {
+  e_nz1 : Z; e_nx : Z; e_ny : Z;
+  e_sfclvl : list Z; e_zlvls : list (list Z);
+  e_times : list (list Z);               (* [yy; mm; dd; hh] *)
+  e_vars : list evar
+}.
+
+Record file_case := FileC {
+  fc_ps : list period_t;                 (* the content handed to the Python reference encoder *)
+  fc_bytes : list Z;                     (* the file it wrote *)
+  fc_ue : Z;                             (* unit exponent: h of a record = 2^(EXP - 8 - ue) *)
+  fc_v1 : list (list Z * Z);             (* VAR1 text -> value in the unit (Python float()) *)
+  fc_rows : list (list (list (list (list Z))));  (* t, level, var: the field that was packed *)
+  fc_obs : option eview                  (* what arlpackedbit returned (None = raised) *)
+}.
+
+Fixpoint lookup (k : list Z) (tab : list (list Z * Z)) : option Z :=
+  match tab with [] => None | (t, z) :: r => if zlist_eqb k t then Some z else lookup k r end.
+Definition h_of (ue ex : Z) : option Z := if 0 <=? ex - 8 - ue then Some (2 ^ (ex - 8 - ue)) else None.
+
+Definition eval_rec (ue : Z) (tab : list (list Z * Z)) (nx : Z) (r : option librec)
+  : option (list (list Z)) :=
+  match r with
+  | None => None
+  | Some (ex, v1t, data) =>
+      match h_of ue ex, lookup v1t tab with
+      | Some h, Some v1 => Some (unpack_rows h v1 (rows_of nx data))
+      | _, _ => None
+      end
+  end.
+(* ' 1' -> 1, '01' -> 1 (the library replaces blanks by '0' before strptime) *)
+Definition two_digits (a b : Z) : Z :=
+  let d c := if c =? 32 then 0 else if is_digit c then c - 48 else -100 in 10 * d a + d b.
+Definition time_fields (t : list Z) : list Z :=
+  match t with
+  | a :: b :: c :: d :: e :: f :: g :: h :: _ => [two_digits a b; two_digits c d; two_digits e f; two_digits g h]
+  | _ => []
+  end.
+Definition eval_view (ue : Z) (tab : list (list Z * Z)) (v : libview) : eview :=
+  EView (lb_nz1 v) (lb_nx v) (lb_ny v) (lb_sfclvl v) (lb_zlvls v) (map time_fields (lb_times v))
+    (map (fun x => (lv_key x, lv_sfc x, map (map (eval_rec ue tab (lb_nx v))) (lv_recs x))) (lb_vars v)).
+
+Definition evar_eqb (a b : evar) : bool :=
+  zlist_eqb (fst (fst a)) (fst (fst b)) && Bool.eqb (snd (fst a)) (snd (fst b))
+  && list_eqb (list_eqb (option_eqb zll_eqb)) (snd a) (snd b).
+Definition eview_eqb (a b : eview) : bool :=
+  (e_nz1 a =? e_nz1 b) && (e_nx a =? e_nx b) && (e_ny a =? e_ny b)
+  && zlist_eqb (e_sfclvl a) (e_sfclvl b) && zll_eqb (e_zlvls a) (e_zlvls b)
+  && zll_eqb (e_times a) (e_times b) && list_eqb evar_eqb (e_vars a) (e_vars b).
+
+Definition var_eqb (a b : var_t) : bool :=
+  zlist_eqb (v_key a) (v_key b) && (v_ck a =? v_ck b) && (v_exp a =? v_exp b)
+  && zlist_eqb (v_prec a) (v_prec b) && zlist_eqb (v_var1 a) (v_var1 b) && zlist_eqb (v_data a) (v_data b).
+Definition lvl_eqb (a b : lvl_t) : bool :=
+  zlist_eqb (l_text a) (l_text b) && list_eqb var_eqb (l_vars a) (l_vars b).
+Definition period_eqb (a b : period_t) : bool :=
+  zlist_eqb (p_time a) (p_time b) && zlist_eqb (p_grid a) (p_grid b) && zlist_eqb (p_fixed a) (p_fixed b)
+  && (p_nx a =? p_nx b) && (p_ny a =? p_ny b) && zlist_eqb (p_vsys2 a) (p_vsys2 b)
+  && zlist_eqb (p_pad a) (p_pad b) && list_eqb lvl_eqb (p_levels a) (p_levels b).
+
+(* the record of the content is the packing of the field (encoder agreement incl. pack2d's
+   model): bytes, exponent rule, VAR1, checksum *)
+Definition rec_matches (ue : Z) (tab : list (list Z * Z)) (v : var_t) (rows : list (list Z)) : bool :=
+  match h_of ue (v_exp v), lookup (v_var1 v) tab with
+  | Some h, Some v1 =>
+      zlist_eqb (concat (pack_bytes h rows)) (v_data v)
+      && (v1 =? hdZ (first_row rows))
+      && (v_ck v =? ksum (pack_bytes h rows))
+      && (if rmax rows =? 0 then v_exp v =? 1 else nexp_rule (rmax rows) (v_exp v - ue))
+  | _, _ => false
+  end.
+Definition lvl_matches ue tab (l : lvl_t) (rs : list (list (list Z))) : bool :=
+  (length (l_vars l) =? length rs)%nat
+  && forallb (fun x => rec_matches ue tab (fst x) (snd x)) (combine (l_vars l) rs).
+Definition period_matches ue tab (p : period_t) (rs : list (list (list (list Z)))) : bool :=
+  (length (p_levels p) =? length rs)%nat
+  && forallb (fun x => lvl_matches ue tab (fst x) (snd x)) (combine (p_levels p) rs).
+Definition content_matches ue tab (ps : list period_t) rs : bool :=
+  (length ps =? length rs)%nat
+  && forallb (fun x => period_matches ue tab (fst x) (snd x)) (combine ps rs).
+
+Definition uniform (ps : list period_t) : bool :=
+  match ps with [] => false | p0 :: t => forallb (same_layout p0) t end.
+
+Definition checkF_file (c : file_case) : bool :=
+  (* harness consistency: Python reference encoder = Coq encoder, decoder inverts it,
+     the records are the packing of the fields *)
+  zlist_eqb (enc (fc_ps c)) (fc_bytes c)
+  && option_eqb (list_eqb period_eqb) (dec (fc_bytes c)) (Some (fc_ps c))
+  && forallb wf_period (fc_ps c) && uniform (fc_ps c)
+  && content_matches (fc_ue c) (fc_v1 c) (fc_ps c) (fc_rows c)
+  (* faithfulness: library = model of the library *)
+  && option_eqb eview_eqb
+       (option_map (eval_view (fc_ue c) (fc_v1 c)) (impl_read std_sizes (fc_bytes c))) (fc_obs c).
+
+(* every field read back lies within one quantum of the field that was packed, for the
+   fields inside the proved range (RMAX <= 127 q) *)
+Definition field_close (ue : Z) (p0 : period_t) (ps : list period_t) rs (o : eview) : bool :=
+  forallb (fun x : evar =>
+    let '(k, sfc, vals) := x in
+    forallb (fun y : period_t * list (list (list (list Z))) * list (option (list (list Z))) =>
+      let '(p, prs, vs) := y in
+      let lv := if sfc then firstn 1 (combine (p_levels p) prs) else tl (combine (p_levels p) prs) in
+      let flds := concat (map (fun lr : lvl_t * list (list (list Z)) =>
+                    concat (map (fun vr : var_t * list (list Z) =>
+                      if zlist_eqb k (v_key (fst vr)) then [vr] else []) (combine (l_vars (fst lr)) (snd lr)))) lv) in
+      (length flds =? length vs)%nat
+      && forallb (fun z : (var_t * list (list Z)) * option (list (list Z)) =>
+           match h_of ue (v_exp (fst (fst z))), snd z with
+           | Some h, Some got =>
+               if rmax (snd (fst z)) <=? 254 * h then within (2 * h) (snd (fst z)) got else true
+           | _, _ => false
+           end) (combine flds vs))
+      (combine (combine ps rs) vals))
+    (e_vars o).
+
+Definition checkS_file (c : file_case) : bool :=
+  match fc_obs c, fc_ps c with
+  | Some o, p0 :: _ =>
+      option_eqb eview_eqb (option_map (eval_view (fc_ue c) (fc_v1 c)) (spec_view (fc_ps c))) (Some o)
+      && forallb cksums_ok (fc_ps c)
+      && (if keys_disjoint p0 then field_close (fc_ue c) p0 (fc_ps c) (fc_rows c) o else true)
+  | _, _ => false
+  end.
+
+Definition region_file (c : file_case) : nat :=
+  match fc_ps c with
+  | [] => 9%nat
+  | p0 :: _ =>
+      if negb (lib_room p0) then 3%nat
+      else if negb (lib_grid_ok p0) then 5%nat
+      else if negb (keys_disjoint p0) then 6%nat
+      else 0%nat
+  end.
+
+(* ---- writer -------------------------------------------------------------------------- *)
+Record write_case := WriteC {
+  wc_nx : Z; wc_ny : Z; wc_ue : Z;
+  wc_times : list (list Z);                         (* [yy; mm; dd; hh] per time *)
+  wc_lvltxt : list (list Z);                        (* expected height texts, surface first *)
+  wc_keys : list (list (list Z));                   (* keys per level *)
+  wc_v1 : list (list Z * Z);                        (* '%14.7E' text of every VAR1 -> value *)
+  wc_rows : list (list (list (list (list Z))));     (* t, level, var: the fields *)
+  wc_obs : option (list Z)                          (* bytes of the file written (None = raised) *)
+}.
+
+Definition checkF_write (c : write_case) : bool :=
+  match wc_obs c with None => impl_write_raises | Some _ => negb impl_write_raises end.
+
+Definition checkS_write (c : write_case) : bool :=
+  match wc_obs c with
+  | None => false
+  | Some bs =>
+      match dec bs with
+      | None => false
+      | Some ps =>
+          zll_eqb (map (fun p => time_fields (p_time p)) ps) (wc_times c)
+          && forallb (fun p => (p_nx p =? wc_nx c) && (p_ny p =? wc_ny c)
+                               && zll_eqb (map l_text (p_levels p)) (wc_lvltxt c)
+                               && list_eqb zll_eqb (map (fun l => map v_key (l_vars l)) (p_levels p)) (wc_keys c)
+                               && cksums_ok p) ps
+          && content_matches (wc_ue c) (wc_v1 c) ps (wc_rows c)
+      end
+  end.
+
+(* ---- dispatch ------------------------------------------------------------------------ *)
+Inductive case_t := Case (c : field_case) | RCase (c : file_case) | WCase (c : write_case).
+
+Definition checkF (c : case_t) : bool :=
+  match c with Case f => checkF_field f | RCase f => checkF_file f | WCase w => checkF_write w end.
+Definition checkS (c : case_t) : bool :=
+  match c with Case f => checkS_field f | RCase f => checkS_file f | WCase w => checkS_write w end.
+Definition region (c : case_t) : nat :=
+  match c with Case f => region_field f | RCase f => region_file f | WCase _ => 4%nat end.
 
 Definition check (c : case_t) : verdict := (checkF c, checkS c, region c).
